@@ -6,6 +6,7 @@ package spynode
 // stall syncing.
 
 import (
+	"bytes"
 	"context"
 	"time"
 
@@ -82,8 +83,8 @@ func VerifHarness_C12_frame() {
 	}
 	altered.AddTransaction(vkTx(66, []int{5}, true)) // same header, different body
 	var msg wire.Message
-	kind := verifrt.Choose("untrusted.message", 9)
-	names := []string{"headers-linked", "headers-unknown", "headers-empty", "inv", "tx", "block-requested-authentic", "block-requested-altered-body", "block-unrequested", "block-requested-next-altered"}
+	kind := verifrt.Choose("untrusted.message", 11)
+	names := []string{"headers-linked", "headers-unknown", "headers-empty", "inv", "tx", "block-requested-authentic", "block-requested-altered-body", "block-unrequested", "block-requested-next-altered", "extmsg-tx", "extmsg-block-altered-body"}
 	relevantTx := vkTx(67, []int{4}, true)
 	switch kind {
 	case 0:
@@ -105,6 +106,10 @@ func VerifHarness_C12_frame() {
 		msg = altered
 	case 7:
 		msg = tree.blocks["b2"]
+	case 9: // the same transaction inside the extended-message envelope
+		msg = c12Ext(wire.CmdTx, relevantTx)
+	case 10:
+		msg = c12Ext(wire.CmdBlock, altered)
 	case 8:
 		// the next block to be processed, with an altered body
 		next := "a1"
@@ -143,7 +148,7 @@ func VerifHarness_C12_frame() {
 			verifrt.Assert(verified, "C12.gate.unverified-peer-has-no-effect")
 		}
 	}
-	if !verified && (kind == 3 || kind == 4) {
+	if !verified && (kind == 3 || kind == 4 || kind == 9) {
 		verifrt.Sig(names[kind], "unverified-effect")
 		verifrt.Assert(len(k.rec.events) == mark && len(k.node.unconfTxChannel.Channel) == 0, "C12.gate.unverified-peer-has-no-effect")
 	}
@@ -246,7 +251,9 @@ func VerifHarness_C12_novouch() {
 	tid := *t.TxHash()
 	for e := 0; e < 3; e++ {
 		verifrt.Advance(time.Duration(verifrt.IntRange("delay-ns", 0, 6_000_000_000)))
-		switch verifrt.Choose("event", 4) {
+		switch verifrt.Choose("event", 5) {
+		case 4: // the body inside the extended-message envelope
+			u1.handleMessage(ctx, c12Ext(wire.CmdTx, t))
 		case 0:
 			u1.handleMessage(ctx, t)
 		case 1:
@@ -268,6 +275,15 @@ func VerifHarness_C12_novouch() {
 		}
 	}
 	verifrt.Reach("C12.novouch.done")
+}
+
+// c12Ext wraps a message in the extended-message envelope (extmsg).
+func c12Ext(cmd string, m wire.Message) *wire.MsgExtended {
+	var buf bytes.Buffer
+	if err := m.BtcEncode(&buf, 0); err != nil {
+		verifrt.Assume(false)
+	}
+	return &wire.MsgExtended{ExtCommand: cmd, Length: uint64(buf.Len()), Payload: buf.Bytes()}
 }
 
 func c07DelayCheckC12(ctx context.Context, node *Node) {
